@@ -234,6 +234,8 @@ func rejKind(err error) string {
 		return "selfparent"
 	case strings.Contains(s, "Other-parent"):
 		return "otherparent"
+	case strings.Contains(s, "Invalid Index"):
+		return "index"
 	}
 	return "other:" + s
 }
